@@ -8,6 +8,7 @@ import DesyncModel.Tables.Pool
 import DesyncModel.Inv.JobReach
 import DesyncModel.Inv.RunReach
 import DesyncModel.Inv.OwnedReach
+import DesyncModel.Inv.JobMono
 
 namespace Desync.C03
 open Desync Gen
@@ -110,5 +111,12 @@ in which no activity is inside the code that runs a queue, no queue is `running`
 theorem no_queue_left_running {s : State} (hr : Reachable s) (hidle : ∀ a q, (s.pcAt a).holds q = false)
     {q : Nat} {v : JobQ} (hv : s.qs[q]? = some v) : v.state.held = false :=
   no_orphaned_running_queue hr hidle hv
+
+/-- **No accepted operation is ever forgotten or changed** (two-state form, for every internal step of every activity): the step
+keeps every job of the table, with the same kind (the same closure / future) and the same queue, and never resets `begun` or
+`ended`.  Together with `accepted_job_is_in_one_place`: an accepted operation stays accounted for — queued, in a runner's hands,
+or finished — forever. -/
+theorem job_table_only_grows {s s' : State} {a : Nat} {o : Obs} (hs : stepAct s a = some (s', o)) : JobMono s s' :=
+  jobMono_stepAct hs
 
 end Desync.C03
